@@ -33,6 +33,7 @@ def register(reg):
     register_generate_inner(reg)
     register_sites(reg)
     register_clone(reg)
+    register_requirement_closure(reg)
 
 
 # ------------------------------------------------------------------------------------------------
@@ -1058,3 +1059,160 @@ def replay_resample(inputs, clause):
     except TypeError:
         return None
     return "resample of a non-primitive distribution did not raise TypeError"
+
+
+# ------------------------------------------------------------------------------------------------
+# (4) PendingRequirement.compile.closure: the requirement sees the SAMPLED values of the bindings captured at the
+#     statement (global names and closure cells), is evaluated exactly once, and leaves namespace and cells as it found them
+
+R = "scenic.core.requirements"
+
+
+def register_requirement_closure(reg):
+    name = "requirements.PendingRequirement.compile.closure"
+    h = {}
+
+    def closure_env(I):
+        eng = I.eng
+        rt = repo_class(f"{R}:RequirementType")
+        is_require = eng.choose(2, "requirement type") == 0
+        ty = I.get_attr(rt, "require" if is_require else "terminateWhen")
+        # bindings captured at the statement: two global names and two closure cells; `y` is bound to a constant
+        bx, bz = PObj("Distribution", tag="binding of x at the statement"), PObj("Distribution", tag="binding of z at the statement")
+        by = PObj("Constant", tag="binding of y at the statement (not random)")
+        bc0, bc1 = PObj("Distribution", tag="binding of cell 0"), PObj("Constant", tag="binding of cell 1 (not random)")
+        ns = PDict([("x", PObj("Rebound", tag="x rebound after the statement")), ("y", by), ("unrelated", PObj("Other", tag="unrelated global")), ("z", bz)])
+        cells = []
+        for i, b in enumerate((bc0, bc1)):
+            c = PObj("Cell", tag=f"cell{i}")
+            c.fields["cell_contents"] = b
+            cells.append((c, b))
+        ego = PObj("Object", tag="ego at the statement") if eng.choose(2, "ego?") == 1 else None
+        scenario = PObj("Scenario", tag="scenario")
+        log = []
+        result = PObj("Verdict", tag="result")
+        lazy_result = eng.choose(2, "result still lazy?") == 1
+        result.fields["_needsLazyEval"] = lazy_result
+        raises = (not lazy_result) and eng.choose(2, "condition raises?") == 1
+
+        def evaluate():
+            log.append(("evaluate", dict(zip(ns.keys, ns.vals)), [c.fields["cell_contents"] for c, _ in cells]))
+            if raises:
+                I.raise_("ZeroDivisionError", "raised by the user's condition")
+            return result
+
+        atom = PObj("Atomic", tag="atomic proposition")
+        fn = PObj("Function", tag="lambda of the requirement")
+        fn.fields["__globals__"] = ns
+        atom.fields["closure"] = fn
+        cond = PObj("Proposition", tag="condition")
+        cond.fields["atomics"] = BuiltinFn("atomics", lambda: PList([atom]))
+        cond.fields["evaluate"] = BuiltinFn("evaluate", evaluate)
+
+        def execute_in_requirement(I_, sc, boundEgo, values):
+            def enter(I2):
+                log.append(("enter", sc, boundEgo, values))
+
+            def exit_(I2, exc):
+                log.append(("exit", exc))
+                return False
+
+            return bm.ContextManagerVal(enter, exit_)
+
+        reg.models[f"{V}:executeInRequirement"] = execute_in_requirement
+        h.update(ty=ty, is_require=is_require, ns=ns, before_ns=list(zip(ns.keys, ns.vals)), cells=cells, before_cells=[c.fields["cell_contents"] for c, _ in cells], ego=ego, scenario=scenario, log=log, result=result, lazy_result=lazy_result, raises=raises, bx=bx, by=by, bz=bz)
+        gb = PDict([("x", bx), ("y", by), ("z", bz)])
+        return dict(condition=cond, globalBindings=gb, cells=tuple(cells), ty=ty, ego=ego, scenario=scenario, line=7)
+
+    def setup(I, env):
+        eng = I.eng
+        # the sample: every random binding has a sampled value; for a non-`require` statement z may be missing from it
+        sx, sz, sc0 = PObj("Sampled", tag="v(x)"), PObj("Sampled", tag="v(z)"), PObj("Sampled", tag="v(cell 0)")
+        pairs = [(h["bx"], sx), (h["cells"][0][1], sc0)]
+        z_sampled = h["is_require"] or eng.choose(2, "z in the sample?") == 1
+        if z_sampled:
+            pairs.append((h["bz"], sz))
+        sego = None
+        if h["ego"] is not None:
+            sego = PObj("Sampled", tag="v(ego)")
+            pairs.append((h["ego"], sego))
+        env.vars["values"] = identity_map(I, pairs)
+        env.vars["monitor"] = None
+        env.vars.update(_sx=sx, _sz=sz, _sc0=sc0, _sego=sego, _z_sampled=z_sampled)
+        eng.input_syms.append(("require", C.Const(None), h["is_require"]))
+        eng.input_syms.append(("condition_raises", C.Const(None), h["raises"]))
+
+    def post(I, env, outcome):
+        eng = I.eng
+        v, log = env.vars, h["log"]
+        evs = [e for e in log if e[0] == "evaluate"]
+        eng.check(f"{name}#ensures.condition_evaluated_exactly_once", len(evs) == 1)
+        if len(evs) == 1:
+            ns_then, cells_then = evs[0][1], evs[0][2]
+            want_z = v["_sz"] if v["_z_sampled"] else h["bz"]
+            eng.check(f"{name}#ensures.captured_global_names_hold_the_sampled_values_of_the_bindings_at_the_statement", ns_then["x"] is v["_sx"] and ns_then["y"] is h["by"] and ns_then["z"] is want_z)
+            eng.check(f"{name}#ensures.names_the_requirement_does_not_use_are_untouched", ns_then["unrelated"] is dict(h["before_ns"])["unrelated"])
+            eng.check(f"{name}#ensures.closure_cells_hold_the_sampled_values_of_their_bindings", cells_then[0] is v["_sc0"] and cells_then[1] is h["cells"][1][1])
+            i = log.index(evs[0])
+            ent = [e for e in log[:i] if e[0] == "enter"]
+            eng.check(f"{name}#ensures.evaluated_inside_the_requirement_context_with_the_sampled_ego_and_the_sample", len(ent) == 1 and ent[0][1] is h["scenario"] and ent[0][2] is v["_sego"] and ent[0][3] is v["values"] and any(e[0] == "exit" for e in log[i:]))
+        if outcome[0] == "return":
+            eng.check(f"{name}#ensures.returns_the_verdict_of_the_condition", outcome[1] is h["result"] and not h["lazy_result"] and not h["raises"])
+        else:
+            cn = exc_name(outcome[1])
+            eng.check(f"{name}#raises.only_the_condition's_own_error_or_InvalidScenarioError_for_a_lazy_result", (cn == "ZeroDivisionError" and h["raises"]) or (cn == "InvalidScenarioError" and h["lazy_result"]))
+        # frame: on exit (normal or exceptional) the module namespace and the cells are as they were found
+        now = dict(zip(h["ns"].keys, h["ns"].vals))
+        eng.check(f"{name}#frame.namespace_restored_on_exit", list(h["ns"].keys) == [k for k, _ in h["before_ns"]] and all(now[k] is b for k, b in h["before_ns"]), detail="after the call: " + ", ".join(f"{k}={now[k]!r}" for k in now))
+        eng.check(f"{name}#frame.closure_cells_restored_on_exit", all(c.fields["cell_contents"] is b for (c, _), b in zip(h["cells"], h["before_cells"])))
+
+    reg.add(
+        C.Contract(
+            f"{R}:PendingRequirement.compile.closure",
+            params=dict(values=C.Const(None), monitor=C.Const(None)),
+            closure_env=closure_env,
+            setup=setup,
+            post=post,
+            raises=[C.Raises("ZeroDivisionError", mode="may"), C.Raises("InvalidScenarioError", mode="may")],
+            inline=DICT_INLINE,
+            replay=replay_requirement_closure,
+            note="two captured global names (one rebound after the statement, one constant), a third name only in the sample for "
+            "non-require statements, two closure cells, optional ego; condition returns / returns a lazy value / raises",
+            bounded=True,
+            properties=("C01",),
+        )
+    )
+
+
+def replay_requirement_closure(inputs, clause):
+    """A real compiled scenario: `x` is rebound after the `require`; the requirement must see the sampled value of the
+    original binding; afterwards the module namespace must be as before the check."""
+    import scenic
+
+    src = (
+        "x = Range(1, 2)\n"
+        "ego = new Object at (x, 0)\n"
+        "def f():\n"
+        "    k = Range(5, 6)\n"
+        "    return lambda: k\n"
+        "g = f()\n"
+        "require 1 <= x <= 2 and 5 <= g() <= 6\n"
+        "x = 'rebound after the require'\n"
+    )
+    sc = scenic.scenarioFromString(src, mode2D=True)
+    req = sc.userRequirements[0]
+    ns = req.proposition.atomics()[0].closure.__globals__
+    before = {k: ns[k] for k in ("x", "ego", "g")}
+    cell = ns["g"].__closure__[0]
+    cell_before = cell.cell_contents
+    scene, its = sc.generate(maxIterations=50)
+    if its != 1:
+        return f"the requirement `1 <= x <= 2 and 5 <= g() <= 6` over x = Range(1, 2), k = Range(5, 6) rejected {its - 1} samples: it did not see the sampled values of the bindings at the statement"
+    if "frame" in clause or clause == "*":
+        after = {k: ns[k] for k in before}
+        changed = [k for k in before if after[k] is not before[k]]
+        if changed and "frame" in clause:
+            return f"after generate() the module namespace still holds the sampled values: " + ", ".join(f"{k} = {after[k]!r} (was {before[k]!r})" for k in changed)
+        if cell.cell_contents is not cell_before and "frame" in clause:
+            return f"after generate() the closure cell of g holds {cell.cell_contents!r} (was {cell_before!r})"
+    return None
